@@ -45,6 +45,12 @@ pub enum Rng {
     ToIncl(usize),
     AB(usize, usize),
     ABIncl(usize, usize),
+    /// (Bound::Excluded(a), Bound::Unbounded) — `(Bound, Bound)` pairs are RangeBounds / SliceIndex too
+    ExUnb(usize),
+    /// (Bound::Excluded(a), Bound::Excluded(b))
+    ExEx(usize, usize),
+    /// (Bound::Excluded(a), Bound::Included(b))
+    ExIn(usize, usize),
 }
 impl Rng {
     pub fn form(&self) -> &'static str {
@@ -55,6 +61,9 @@ impl Rng {
             Rng::ToIncl(_) => "..=b",
             Rng::AB(..) => "a..b",
             Rng::ABIncl(..) => "a..=b",
+            Rng::ExUnb(..) => "(Excluded(a), Unbounded)",
+            Rng::ExEx(..) => "(Excluded(a), Excluded(b))",
+            Rng::ExIn(..) => "(Excluded(a), Included(b))",
         }
     }
     pub fn to_json(&self) -> Value {
@@ -66,6 +75,9 @@ impl Rng {
             Rng::ToIncl(b) => json!({"form": "..=b", "b": u(b)}),
             Rng::AB(a, b) => json!({"form": "a..b", "a": u(a), "b": u(b)}),
             Rng::ABIncl(a, b) => json!({"form": "a..=b", "a": u(a), "b": u(b)}),
+            Rng::ExUnb(a) => json!({"form": "(Excluded(a), Unbounded)", "a": u(a)}),
+            Rng::ExEx(a, b) => json!({"form": "(Excluded(a), Excluded(b))", "a": u(a), "b": u(b)}),
+            Rng::ExIn(a, b) => json!({"form": "(Excluded(a), Included(b))", "a": u(a), "b": u(b)}),
         }
     }
     pub fn from_json(v: &Value) -> Option<Rng> {
@@ -83,6 +95,9 @@ impl Rng {
             "..=b" => Rng::ToIncl(u(&v["b"])?),
             "a..b" => Rng::AB(u(&v["a"])?, u(&v["b"])?),
             "a..=b" => Rng::ABIncl(u(&v["a"])?, u(&v["b"])?),
+            "(Excluded(a), Unbounded)" => Rng::ExUnb(u(&v["a"])?),
+            "(Excluded(a), Excluded(b))" => Rng::ExEx(u(&v["a"])?, u(&v["b"])?),
+            "(Excluded(a), Included(b))" => Rng::ExIn(u(&v["a"])?, u(&v["b"])?),
             _ => return None,
         })
     }
@@ -112,6 +127,15 @@ impl Rng {
             }
             v.push(Rng::ABIncl(a, usize::MAX));
         }
+        // exclusive start bounds (only expressible as a (Bound, Bound) pair)
+        for a in 0..=hi {
+            v.push(Rng::ExUnb(a));
+            for b in 0..=hi {
+                v.push(Rng::ExEx(a, b));
+                v.push(Rng::ExIn(a, b));
+            }
+        }
+        v.push(Rng::ExUnb(usize::MAX));
         v
     }
     /// (start, end) when the range is valid for a collection of `len` elements.
@@ -123,6 +147,9 @@ impl Rng {
             Rng::ToIncl(b) => (0, b.checked_add(1)?),
             Rng::AB(a, b) => (a, b),
             Rng::ABIncl(a, b) => (a, b.checked_add(1)?),
+            Rng::ExUnb(a) => (a.checked_add(1)?, len),
+            Rng::ExEx(a, b) => (a.checked_add(1)?, b),
+            Rng::ExIn(a, b) => (a.checked_add(1)?, b.checked_add(1)?),
         };
         if a <= b && b <= len {
             Some((a, b))
@@ -159,6 +186,18 @@ macro_rules! with_range {
             }
             $crate::ops::Rng::ABIncl(a, b) => {
                 let $r = a..=b;
+                $body
+            }
+            $crate::ops::Rng::ExUnb(a) => {
+                let $r = (core::ops::Bound::Excluded(a), core::ops::Bound::Unbounded);
+                $body
+            }
+            $crate::ops::Rng::ExEx(a, b) => {
+                let $r = (core::ops::Bound::Excluded(a), core::ops::Bound::Excluded(b));
+                $body
+            }
+            $crate::ops::Rng::ExIn(a, b) => {
+                let $r = (core::ops::Bound::Excluded(a), core::ops::Bound::Included(b));
                 $body
             }
         }
